@@ -46,6 +46,13 @@ def size_align(db, tname, abi):
             for d in dims:
                 n *= d
             return s * n, a
+    m2 = re.search(r"\(\*((\[\d+\])+)\)", t)
+    if m2:
+        # array of pointers to functions / arrays, spelled 'int (*[3])(int)': the extents sit inside the declarator
+        n = 1
+        for d in re.findall(r"\[(\d+)\]", m2.group(1)):
+            n *= int(d)
+        return PTR[abi][0] * n, PTR[abi][1]
     if "(*" in t or t.endswith("*") or re.search(r"\*\s*(const)?$", tname):
         return PTR[abi]
     table = MODEL32 if abi == "model32" else HOST
